@@ -25,7 +25,7 @@ LEVEL = "exploration"
 RULE = ("sympy -> casadi: leaves {x, y, 2, -3, 1/3, 1/2, 1, 0, -1, 2.5, 0.75, -0.001}; depth-1 = unary/binary constructors on leaves; depth-2 = unary on depth-1, binary of "
         "depth-1 with a leaf (thorough: with a reduced depth-1 set); matrices, user function map and cse wrapper on a sub-family. casadi -> sympy: leaves {a, b, 2, 2.5, -0.5} + regularisation constants 1e-10 / 4e-10 / 3+1e-10 in well-conditioned positions, every "
         "handled opcode, same depth scheme. points (x,y) in {-7.5,-1.25,0.5,2,3.75}^2, points outside the real domain of the source skipped by the reference. "
-        "user functions named by every fragment (<= 3 letters) of a built-in name; variables named like cse temporaries; constant pairs agreeing to 6+ digits in 5 operator shapes. non-trivial = tree contains a symbol and at least one operator; distinct by structural representation (srepr / str)")
+        "user functions named by every fragment (<= 3 letters) of a built-in name; variables named like cse temporaries; constant pairs agreeing to 6+ digits in 5 operator shapes; all ordered pairs of 4 guard shapes x 4 conditions under + * -; a shared table with short-lived variables; two conversions in two threads with <= 2 preemptions (quick: call granularity). non-trivial = tree contains a symbol and at least one operator; distinct by structural representation (srepr / str)")
 ASSUMPTIONS = ["mpmath evaluation of the SymPy source (30 digits) and CasADi evaluation of the SX source are the reference values",
                "a raised exception counts as an explicit refusal (allowed by the property); silent alteration is the violation"]
 PTS = [-7.5, -1.25, 0.5, 2.0, 3.75]
